@@ -31,7 +31,7 @@ package parquet
 //@ pred lastRows(m) := m.rowGroups[#m.rowGroups - 1].rowGroup.NumRows
 //@ pred closedSame(m) := forall k in 0..#m.rowGroups - 1: m.rowGroups[k].rowGroup.NumRows == old(m.rowGroups[k].rowGroup.NumRows)
 //@ pred mInv(m) := metaOK(m) && #m.rowGroups >= 1 && m.rowGroupDocs >= 0
-//@ pred pageWritten(m) := #m.rowGroups == old(#m.rowGroups) && m.rowGroupDocs == old(m.rowGroupDocs) && lastRows(m) == m.rowGroupDocs && closedSame(m)
+//@ pred pageWritten(m) := #m.rowGroups == old(#m.rowGroups) && m.rowGroupDocs == old(m.rowGroupDocs) && m.docs == old(m.docs) && lastRows(m) == m.rowGroupDocs && closedSame(m)
 
 //@ func (*writeCounter).Write
 //@   requires w != nil && isBB(w.w)
